@@ -206,14 +206,16 @@ class Gen:
                     steps += [self.easy(rng.choice((0, 1))), "run:%d" % rng.randrange(0, 2000)] + (["finish:%d" % rng.randrange(0, 500)] if rng.random() < .6 else [])
                 elif r == 1:
                     steps += ["senc:%s:%s" % (ch, rng.choice(("none", "crc32", "crc64", "sha256")))]
-                    cur = ch
+                    anybcj = "bcj" in ch
                     for _ in range(rng.randrange(0, 4)):
-                        # BCJ filters reject LZMA_SYNC_FLUSH (LZMA_OPTIONS_ERROR): not an allocation matter, keep it out
-                        acts = ("run", "full", "finish") if "bcj" in cur else ("run", "sync", "full", "finish")
+                        # BCJ filters reject LZMA_SYNC_FLUSH (LZMA_OPTIONS_ERROR): not an allocation matter, keep it out.
+                        # A failed lzma_filters_update keeps the OLD chain, so no chain of this run may contain a BCJ filter.
+                        acts = ("run", "full", "finish") if anybcj else ("run", "sync", "full", "finish")
                         act = rng.choice(acts)
                         steps.append(act + ":%d" % rng.choice((0, 1, 300, 2500)))
                         if rng.random() < .3 and act in ("full",):
                             cur = rng.choice(pre) + rng.choice(encs)
+                            anybcj = anybcj or "bcj" in cur
                             steps.append("upd:" + cur)
                 elif r == 2:
                     steps += ["sdec:%d:%s" % (rng.choice((0, 8)), xz(ch, rng.choice((0, 400, 1500)), rng.randrange(1, 4), 1))] + (["dcode"] if rng.random() < .8 else [])
@@ -231,7 +233,9 @@ class Gen:
                 elif r == 8:
                     steps += ["renc:%s" % ch, "finish:%d" % rng.randrange(1, 900)] if rng.random() < .5 else ["rdec:raw/%s/%d" % (ch, rng.randrange(1, 900)), "dcode"]
                 elif r == 9:
-                    steps += ["benc:%s:crc32" % ch, "finish:%d" % rng.randrange(1, 900)] if rng.random() < .5 else ["bdec:blk/%s/crc32/%d" % (ch, rng.randrange(1, 900)), "dcode"]
+                    # (lzma_block_buffer_encode stores tiny incompressible input as uncompressed LZMA2 chunks with a different
+                    # Block Header chain; the recipe builder rejects that, so keep the block recipes compressible)
+                    steps += ["benc:%s:crc32" % ch, "finish:%d" % rng.randrange(1, 900)] if rng.random() < .5 else ["bdec:blk/%s/crc32/%d" % (ch, rng.randrange(400, 1200)), "dcode"]
                 elif r == 10:
                     s = rng.randrange(3)
                     steps += ["ix_end:%d" % s, "idec:%d:idx/%d" % (s, rng.choice((0, 1, 30, 600))), "dcode"]
@@ -355,9 +359,9 @@ def run(ctx):
     g = Gen(presets)
     scen = g.base_scenarios(quick)
     if not quick:
-        scen += g.random_scenarios(ctx.rng, 60)
+        scen += g.random_scenarios(ctx.rng, 160)
     else:
-        scen += g.random_scenarios(ctx.rng, 6)
+        scen += g.random_scenarios(ctx.rng, 10)
 
     # --- failure-free runs: count the allocations -------------------------------------------------
     base_lines = ["F=none " + " ".join(st) for _, st, _ in scen]
@@ -462,33 +466,46 @@ def run(ctx):
     # correspondence broke and no run violated the property, finish() reports "no-failing-input-found".
     if ctx.broken and not ctx.violations:
         ctx.cov["search"] = {"runs_judged_by_direct_oracle": len(lines), "failing": 0}
-    if not quick:
-        f4_probe(ctx)
+    f4_probe(ctx)
     return "proof"
 
 
+F4_OPS = ("dec-mutex", "dec-cond", "enc-mutex", "enc-cond")
+F4_LIBS = ["-Wl,--wrap=pthread_mutex_init", "-Wl,--wrap=pthread_cond_init"]
+
+
+def f4_run(exe, which):
+    rc, out, err = vlib.run_lines([exe], [which], timeout=120)
+    m = re.match(r"ret=(\d+) double_free=(\d+) unknown_free=(\d+) live=(\d+) T=(\S*)", out[0]) if out else None
+    if rc != 0 or not m:
+        return {"rc": rc, "crash": True, "stderr_tail": err[-2500:]}
+    return {"ret": int(m.group(1)), "double_free": int(m.group(2)), "unknown_free": int(m.group(3)), "live": int(m.group(4)), "trace": m.group(5)}
+
+
+def f4_bad(o):
+    return bool(o.get("crash") or o.get("double_free") or o.get("unknown_free") or o.get("live"))
+
+
 def f4_probe(ctx):
-    """Watch item F4 (pthread failure, outside the property's quantifier): reported, never a verdict."""
-    src = os.path.join(vlib.ROOT, "harness", "c10_f4.c")
-    if not os.path.exists(src):
+    """F4 (fixed in /repo as dde1e33): lzma_stream_{de,en}coder_mt() when pthread_mutex_init / pthread_cond_init fails.
+    The trigger is OUTSIDE the allocator quantifier of C10 (a pthread primitive fails, no allocation does), but the effect
+    (the coder struct freed twice through the allocator) is exactly what C10 forbids, so a recurrence is reported."""
+    okh, log, exe = vlib.harness_build("c10_f4", ["c10_f4.c"], libs=F4_LIBS)
+    if not okh:
+        ctx.obligation_broken("stage B: harness/c10_f4.c (pthread-failure probe) does not build against /repo", log)
         return
-    try:
-        okh, log, exe = vlib.harness_build("c10_f4", ["c10_f4.c"], libs=["-Wl,--wrap=pthread_mutex_init", "-Wl,--wrap=pthread_cond_init"])
-        if not okh:
-            ctx.cov["f4_probe"] = "does not build: " + log[-300:]
-            return
-        outs = {}
-        for which in ("dec-mutex", "dec-cond", "enc-mutex", "enc-cond"):
-            rc, out, err = vlib.run_lines([exe], [which], timeout=120)
-            m = re.match(r"ret=(\d+) double_free=(\d+) unknown_free=(\d+) live=(\d+) T=(\S*)", out[0]) if out else None
-            outs[which] = ({"ret": int(m.group(1)), "double_free": int(m.group(2)), "unknown_free": int(m.group(3)), "live": int(m.group(4)),
-                            "trace": m.group(5)} if m else {"rc": rc, "stderr_tail": err[-400:]})
-        ctx.cov["f4_probe"] = outs
-        hit = [w for w, o in outs.items() if o.get("double_free")]
-        if hit:
-            ctx.log("watch item F4 (pthread failure, outside C10's quantifier) reproduces: double free in " + ", ".join(hit) + " — see findings/F4.md")
-    except Exception as ex:     # never let the watch item disturb the verdict
-        ctx.cov["f4_probe"] = "probe error: %r" % (ex,)
+    outs = {w: f4_run(exe, w) for w in F4_OPS}
+    ctx.cov["f4_probe"] = {"note": "pthread_mutex_init/pthread_cond_init forced to fail (link-time --wrap); outside the allocator quantifier of C10",
+                           "results": outs}
+    for w, o in outs.items():
+        ctx.case("f4:" + w, nontrivial=True)
+        ctx.count("f4-probe")
+        if f4_bad(o):
+            ctx.violation("f4-pthread-init-failure-" + w,
+                          {"kind": "a block is freed twice / leaked / the call crashes when a pthread primitive fails during lzma_stream_%scoder_mt() "
+                                   "(outside the allocator quantifier of C10; same forbidden effect)" % ("de" if w.startswith("dec") else "en"),
+                           "f4_op": w, "answer": o,
+                           "how_to_replay": "./check C10 --replay <this file>   (harness/c10_f4.c, linked with --wrap=pthread_mutex_init,--wrap=pthread_cond_init)"}, True)
 
 
 def replay(ctx, path):
@@ -498,6 +515,18 @@ def replay(ctx, path):
     if not okh:
         print("harness does not build:", log[-2000:])
         return 2
+    if "f4_op" in r:
+        okh, log, fexe = vlib.harness_build("c10_f4", ["c10_f4.c"], libs=F4_LIBS)
+        if not okh:
+            print("probe does not build:", log[-2000:])
+            return 2
+        o = f4_run(fexe, r["f4_op"])
+        print("f4 probe", r["f4_op"], "->", o)
+        if f4_bad(o):
+            print("VIOLATION property=C10 replay=%s" % path)
+            return 1
+        print("replay passes")
+        return 0
     if "op" not in r:
         print("this replay names proof obligations / correspondences that no longer check (no failing input):")
         print(json.dumps(r.get("no_longer_checks", r), indent=1)[:4000])
